@@ -163,7 +163,7 @@ func histTag(c *Case, res *Result) string {
 			tag += "/drain"
 		}
 	}
-	if vm[2] {
+	if vm[2] || vm[4] {
 		tag += "/ap"
 		// an explicit Rollback after an Update on an actively persisted store (see the C01 finding)
 		rolledBack := false
@@ -171,7 +171,7 @@ func histTag(c *Case, res *Result) string {
 			for _, tx := range ph.Txns {
 				if tx.End == "rollback" {
 					for _, op := range tx.Ops {
-						if c.Stores[op.S].ValueMode == 2 && (op.K == "update" || op.K == "upsert" || op.K == "updcur") {
+						if (c.Stores[op.S].ValueMode == 2 || c.Stores[op.S].ValueMode == 4) && (op.K == "update" || op.K == "upsert" || op.K == "updcur") {
 							rolledBack = true
 						}
 					}
